@@ -1,10 +1,198 @@
-//! C16 wire part (filled in with the wire engine).
+//! C16 wire part: --duplicate-packets N at the server level.
+
 use crate::common::*;
+use crate::refcodec::{self, RDec, RPacket};
+use crate::viol;
+use crate::wclient;
+use crate::wire::{self, Client, Server, StartError};
+use serde::{Deserialize, Serialize};
 use serde_json::Value;
+use std::path::Path;
+use std::time::Duration;
 
-pub fn run_wire(_ctx: &Ctx) {}
+#[derive(Clone, Debug, Serialize, Deserialize)]
+pub struct Case {
+    /// raw value given to --duplicate-packets
+    pub n: String,
+    pub single: bool,
+    pub with_options: bool,
+}
 
-pub fn replay(ctx: &Ctx, part: &str, _case: &Value) -> bool {
-    ctx.say(&format!("unknown part {}", part));
-    std::process::exit(2)
+fn copies_from(cl: &Client, first_wait: Duration, quiet: Duration) -> (Vec<Vec<u8>>, Option<std::net::SocketAddr>) {
+    let mut out = vec![];
+    let mut from = None;
+    if let Some((b, f)) = cl.recv(first_wait) {
+        out.push(b);
+        from = Some(f);
+        while let Some((b, _)) = cl.recv(quiet) {
+            out.push(b);
+            if out.len() > 2000 {
+                break;
+            }
+        }
+    }
+    (out, from)
+}
+
+fn copies(cl: &Client, first_wait: Duration, quiet: Duration) -> Vec<Vec<u8>> {
+    let mut out = vec![];
+    if let Some((b, _)) = cl.recv(first_wait) {
+        out.push(b);
+        while let Some((b, _)) = cl.recv(quiet) {
+            out.push(b);
+            if out.len() > 2000 {
+                break;
+            }
+        }
+    }
+    out
+}
+
+fn run_case(dir: &Path, c: &Case) -> Result<Vec<&'static str>, (String, String)> {
+    let root = dir.join("c16w");
+    let _ = std::fs::remove_dir_all(&root);
+    let d = root.join("d");
+    std::fs::create_dir_all(&d).unwrap();
+    let file = content(16, 40);
+    std::fs::write(d.join("f.bin"), &file).unwrap();
+    let mut args = vec![wire::s("-d"), d.to_string_lossy().to_string(), wire::s("--duplicate-packets"), c.n.clone()];
+    if c.single {
+        args.push(wire::s("-s"));
+    }
+    let parsed: Option<u64> = c.n.parse().ok();
+    let must_reject = !matches!(parsed, Some(v) if v < 255);
+    let mut srv = match Server::start(&args, &root) {
+        Ok(s) => {
+            if must_reject {
+                return Err(("accepted-invalid-n".into(), format!("tftpd started with --duplicate-packets {}", c.n)));
+            }
+            s
+        }
+        Err(StartError::Exited(code, e)) => {
+            let _ = std::fs::remove_dir_all(&root);
+            if must_reject {
+                if code == 0 {
+                    return Err(("rejected-with-exit-0".into(), format!("--duplicate-packets {} was rejected but the exit status is 0", c.n)));
+                }
+                return Ok(vec!["rejected-at-start-up"]);
+            }
+            return Err(("rejected-valid-n".into(), format!("tftpd exited with {} for --duplicate-packets {}: {}", code, c.n, e)));
+        }
+        Err(StartError::Harness(e)) => return Err(("harness".into(), e)),
+    };
+    let n = parsed.unwrap() as usize;
+    let quiet = Duration::from_millis(60);
+    let opts: Vec<(String, String)> = if c.with_options { vec![("blksize".into(), "1024".into())] } else { vec![] };
+    // ---- download
+    let cl = Client::new();
+    cl.send(&wclient::request_bytes(false, "f.bin", &opts), srv.addr);
+    let (first, first_from) = copies_from(&cl, Duration::from_secs(3), quiet);
+    if c.with_options {
+        if first.len() != 1 || !matches!(refcodec::decode(&first[0]), RDec::Ok(RPacket::Oack(_))) {
+            return Err(("initial-reply-multiplicity".into(), format!("N={}: the OACK arrived {} time(s) (expected once): {:?}", n, first.len(), first.iter().map(|b| hex(b)).collect::<Vec<_>>())));
+        }
+        // ACK 0 -> DATA 1 x (N+1)
+        let Some(peer) = first_from else { return Err(("harness".into(), "no source address".into())) };
+        cl.send(&refcodec::ack(0), peer);
+        let data1 = copies(&cl, Duration::from_secs(3), quiet);
+        check_run(&data1, n + 1, "DATA 1 after ACK 0", |p| matches!(p, RDec::Ok(RPacket::Data { block: 1, .. })))?;
+        cl.send(&refcodec::ack(1), peer);
+    } else {
+        check_run(&first, n + 1, "DATA 1 (first reply to a plain RRQ is a data block)", |p| matches!(p, RDec::Ok(RPacket::Data { block: 1, .. })))?;
+    }
+    // ---- refusal: exactly one ERROR
+    let cl2 = Client::new();
+    cl2.send(&wclient::request_bytes(false, "missing.bin", &[]), srv.addr);
+    let errs = copies(&cl2, Duration::from_secs(3), quiet);
+    if errs.len() != 1 || !matches!(refcodec::decode(&errs[0]), RDec::Ok(RPacket::Error { code: 1, .. })) {
+        return Err(("initial-reply-multiplicity".into(), format!("N={}: the ERROR reply arrived {} time(s) (expected once)", n, errs.len())));
+    }
+    // ---- upload: ACK 0 / OACK once, ACK 1 x (N+1)
+    let cl3 = Client::new();
+    cl3.send(&wclient::request_bytes(true, "up.bin", &opts), srv.addr);
+    let mut firsts = vec![];
+    let mut peer3 = None;
+    if let Some((b, f)) = cl3.recv(Duration::from_secs(3)) {
+        firsts.push(b);
+        peer3 = Some(f);
+        while let Some((b, _)) = cl3.recv(quiet) {
+            firsts.push(b);
+        }
+    }
+    if firsts.len() != 1 {
+        return Err(("initial-reply-multiplicity".into(), format!("N={}: the reply to the WRQ arrived {} time(s) (expected once)", n, firsts.len())));
+    }
+    cl3.send(&refcodec::data(1, b"tiny upload"), peer3.unwrap());
+    let acks = copies(&cl3, Duration::from_secs(3), quiet);
+    check_run(&acks, n + 1, "ACK 1 of an upload", |p| matches!(p, RDec::Ok(RPacket::Ack(1))))?;
+    let stored = std::fs::read(d.join("up.bin")).unwrap_or_default();
+    if stored != b"tiny upload" {
+        return Err(("dup-mode-upload".into(), format!("N={}: stored upload is {:?}", n, String::from_utf8_lossy(&stored))));
+    }
+    if let Some(st) = srv.exit_status() {
+        return Err(("server-terminated".into(), format!("tftpd exited ({})", st)));
+    }
+    drop(srv);
+    let _ = std::fs::remove_dir_all(&root);
+    Ok(vec!["multiplicity-checked"])
+}
+
+fn check_run(got: &[Vec<u8>], want: usize, what: &str, is: impl Fn(&RDec) -> bool) -> Result<(), (String, String)> {
+    let all_same = got.windows(2).all(|w| w[0] == w[1]);
+    if got.len() != want || !all_same || !got.first().map(|b| is(&refcodec::decode(b))).unwrap_or(false) {
+        return Err(("wire-S9".into(), format!("{}: {} datagram(s) arrived back to back (identical: {}), expected exactly {} copies; first = {}", what, got.len(), all_same, want, got.first().map(|b| hex(b)).unwrap_or_default())));
+    }
+    Ok(())
+}
+
+pub fn judge(dir: &Path, c: &Case, obs: &mut Obs) -> Judge {
+    obs.class(if c.single { "wire-single-port" } else { "wire-multi-port" });
+    obs.nontrivial = true;
+    let r = match run_case(dir, c) {
+        Err((sig, d)) if sig != "harness" => match run_case(dir, c) {
+            Ok(k) => {
+                obs.inconclusive = Some(format!("failed once ({}: {}), passed on the isolated re-run", sig, d));
+                Ok(k)
+            }
+            other => other,
+        },
+        other => other,
+    };
+    match r {
+        Ok(k) => {
+            for x in k {
+                obs.class(x);
+            }
+            Ok(())
+        }
+        Err((sig, d)) if sig == "harness" => {
+            obs.inconclusive = Some(d);
+            Ok(())
+        }
+        Err((sig, d)) => viol!(sig, "{} | --duplicate-packets {} single={} options={}", d, c.n, c.single, c.with_options),
+    }
+}
+
+pub fn run_wire(ctx: &Ctx) {
+    let dirs = DirPool::new(ctx, "c16w");
+    let mut cases = vec![];
+    for n in ["0", "1", "2", "3", "254", "255", "256", "-1", "1000", "x"] {
+        for single in [false, true] {
+            for with_options in [false, true] {
+                cases.push(Case { n: n.to_string(), single, with_options });
+            }
+        }
+    }
+    enumerate(ctx, "wire-duplicate-packets", &cases, true, |c, o| dirs.with(|d| judge(d, c, o)));
+}
+
+pub fn replay(ctx: &Ctx, part: &str, case: &Value) -> bool {
+    let dirs = DirPool::new(ctx, "c16w");
+    match part {
+        "wire-duplicate-packets" => replay_one(ctx, part, case, |c: &Case, o| dirs.with(|d| judge(d, c, o))),
+        _ => {
+            ctx.say(&format!("unknown part {}", part));
+            std::process::exit(2)
+        }
+    }
 }
